@@ -423,9 +423,9 @@ def sigRecAt (front : Bytes) (n : Name) (d : TsigData) : SigRec :=
     name := { n with fqdn := true }, rclass := 255, ttl := 0, data := decoded d }
 
 theorem readRecords_tsigRR (front : Bytes) (n : Name) (d : TsigData) (E : Emittable n d)
-    (upd : Bool) (hlen : (tsigRdata d).length ≠ 0) :
-    readRecords (front ++ tsigRRBytes n d) true upd 1 front.length none none
-      = .ok ((sigRecAt front n d).stop, some (sigRecAt front n d), none) := by
+    (upd : Bool) (hlen : (tsigRdata d).length ≠ 0) (z : Option Nat) :
+    readRecords (front ++ tsigRRBytes n d) true upd 1 front.length none z
+      = .ok ((sigRecAt front n d).stop, some (sigRecAt front n d), z) := by
   rw [readRecords, readFrame_tsigRR front n d E]
   simp only
   have ht : tsigOf (front ++ tsigRRBytes n d)
@@ -514,7 +514,7 @@ theorem valid_signed_message_verifies {front : Bytes} {hd : Hdr} (W : Walkable f
     simp only
     rw [readRecords_append_suffix _ _ _ _ _ _ _ _ _ h2]
     simp only [Option.isSome_none, Bool.false_eq_true, ↓reduceIte]
-    rw [readRecords_tsigRR front n d E _ (tsigRdata_ne d)]
+    rw [readRecords_tsigRR front n d E _ (tsigRdata_ne d) none]
   rw [hloc]
   simp only [Outcome.ok.injEq, Prod.mk.injEq, and_true]
   have h12 := readHdr_len W.hdr
